@@ -2,6 +2,7 @@
 //!   verif_harness run <Cxx> --tier quick|thorough --seed N --driver <exe> --work <dir> --out <json>
 //!   verif_harness replay <Cxx> <suite> <request line…>
 //!   verif_harness extract <out-dir>
+mod fbridge;
 mod prng;
 mod proto;
 mod run;
